@@ -256,6 +256,10 @@ class C15(PropBase):
             else:
                 x = copy.deepcopy(rng.choice(PROBES))
                 steps.append({"op": "probe", "t": t, "x": x, "dir": rng.choice(["unmarshal", "unmarshal", "marshal"]), "mod": "vw0", "pass": passthrough})
+                if "exhaust_scan" in sw and rng.random() < 0.3:
+                    # the call itself (deferred positions are resolved by the first call that reaches them) is first issued
+                    # from every stack depth at which it cannot complete
+                    steps[-1]["scan"] = True
         return {"prop": self.ID, "seed": seed, "tier": tier, "world": world, "env": env, "steps": steps_with_ids(steps), "meta": {"swarm": sw}}
 
     def comparable(self, sess, i, step):
@@ -274,6 +278,15 @@ class C15(PropBase):
 
         if step["op"] == "build" and step.get("scan") and not sess.is_cold:
             aborted, _ = sess.scan_exhaust(step, getattr(typelib, step["kind"]), sess.T(step))
+            if aborted:
+                sess.scanned.add(core.jdump(step["t"]))
+        if step["op"] == "probe" and step.get("scan") and not sess.is_cold:
+            T = sess.T(step)
+            x = sess.V(step["x"])
+            if step["dir"] == "unmarshal":
+                aborted, _ = sess.scan_exhaust(step, typelib.unmarshal, T, x)
+            else:
+                aborted, _ = sess.scan_exhaust(step, typelib.marshal, x, t=T)
             if aborted:
                 sess.scanned.add(core.jdump(step["t"]))
 
@@ -387,7 +400,7 @@ class C15(PropBase):
         if core.jdump(step["t"]) in sess.scanned:
             # builds of this annotation were cut short by RecursionError at every point they pass
             # through: the routine that finally got built must behave like one built in a cold process
-            cold = sess.cold_exec({k: v for k, v in step.items() if k != "depth"})
+            cold = sess.cold_exec({k: v for k, v in step.items() if k not in ("depth", "scan")})
             if "error" in cold:
                 raise RuntimeError(f"harness: cold execution failed: {cold['error']}")
             sess.probes["probe_after_exhaust_scan_vs_cold"] += 1
